@@ -380,9 +380,9 @@ def plan(tier, seed, excl):
     q = tier == 'quick'
     t = [('pairs', {'shard': i, 'of': 8}) for i in range(8)]
     t += [('triples', {'shard': i, 'of': 4}) for i in range(4)]
-    t += [('random-pairs', {'shard': i, 'n': 3000 if q else 60000}) for i in range(4)]
+    t += [('random-pairs', {'shard': i, 'n': 6000 if q else 60000}) for i in range(6)]
     t += [('catalogue-grids', {'shard': i, 'of': 4}) for i in range(4)]
-    t += [('grids', {'shard': i, 'n': 150 if q else 4000}) for i in range(12)]
+    t += [('grids', {'shard': i, 'n': 400 if q else 4000}) for i in range(16)]
     return t
 
 
